@@ -147,8 +147,18 @@ impl<'a, P: ?Sized + PathImpl> PathMutImpl<'a, P> {
 				i -= 1
 			}
 
-			replace(self.buffer, i..self.end, &[]);
-			self.end = i;
+			if i == start && self.buffer[i] == b'/' {
+				// AMBIGUITY: The first segment is empty and is the only one
+				//            left (e.g. `//foo` becomes `/`, which has no
+				//            segments).
+				// SOLUTION:  We write it as `/./`, as `push` does.
+				replace(self.buffer, start..self.end, b"./");
+				self.end = start + 2;
+			} else {
+				replace(self.buffer, i..self.end, &[]);
+				self.end = i;
+			}
+
 			true
 		} else {
 			false
